@@ -479,7 +479,30 @@ class Gen:
         r = self.r
         if self.closed or self.waiter:
             return
-        kind = r.choice(["dial", "hs", "hs", "gate", "gate", "gate"])
+        kind = r.choice(["dial", "hs", "hs", "gate", "gate", "gate", "resend"])
+        if kind == "resend":
+            # the read routine stalls inside the resend of a pending publish (it holds the write lock, not the connection control)
+            if self.reader_out or not (self.out1 or self.out2) or (self.link == "live" and not self.doomed):
+                return
+            self.emit("dial ok %s o,g" % H(mq.connack(0, 0)), "feed block", "rs")
+            what = r.choice(["close", "close", "disconnect", "ok", "fail"])
+            if what == "close":
+                self.emit("close", "rs")
+                self.closed, self.link = True, "closed"
+            elif what == "disconnect":
+                self.emit("disconnect")
+                if r.random() < 0.4:
+                    self.emit("close")
+                self.emit("wgo " + r.choice(["ok", "t0"]), "rs")
+                self.closed, self.link = True, "closed"
+            elif what == "ok":
+                self.emit("wgo ok")
+                self.link, self.parked, self.reader_out, self.doomed = "live", True, True, False
+                self.had_conn = True
+            else:
+                self.emit("wgo e0", "rs")
+                self.link, self.parked, self.reader_out = "down", False, False
+            return
         if kind in ("dial", "hs") and (self.link == "live" and not self.doomed):
             if self.reader_out or r.random() < 0.5:
                 self.emit("brk")
@@ -529,6 +552,19 @@ class Gen:
             call = r.choice(["ping", "pub 0 74 6869", "sub 1 612f23", "unsub 61"])
             if call == "ping" and self.ping:
                 call = "pub 0 74 6869"
+            if r.random() < self.p.get("midpacket", 0.15):
+                # the writer stalls between the header and the payload of a vectored write while the broker's packets keep
+                # coming: whatever the read routine has to send must wait for the write lock (whole packets only)
+                self.emit("wpol o,g", "call %s pub 0 7474 %s" % (tag, H(self.payload(False) or b"x")))
+                for _ in range(r.choice([1, 1, 2])):
+                    self.emit("feed %s block" % H(r.choice([mq.ack("pubrel", r.choice([1, 2, 5, 9])), mq.PINGRESP,
+                                                            mq.ack("pubrel", r.choice(sorted(self.markers) or [3]))])))
+                self.emit("wgo " + r.choice(["ok", "ok", "t0", "e0"]))
+                if self.ops[-1] != "wgo ok":
+                    self.link, self.parked, self.reader_out, self.doomed = "pending", False, False, False
+                    self.subs, self.unsubs, self.ping = [], [], None
+                    self.emit("rs")
+                return
             self.emit("wpol g", "call %s %s" % (tag, call))
             # more requests queue up on the write semaphore behind the blocked one; the broker may answer meanwhile
             def ident(c):
